@@ -6,7 +6,7 @@ set -u
 HERE=$(cd "$(dirname "$0")/.." && pwd)
 P=$1; K=$2; shift 2
 CHECKS=${*:-$P}
-SRC=/tmp/seed/$P-out/change$K
+SRC=/tmp/seed/$P-out/change$K; [ -d "$SRC" ] || SRC=/tmp/seed/old/$P-out/change$K
 DST=$HERE/seeded/$P-$K
 grep -q '^CONFIRMED' "$SRC/confirm.txt" || { echo "$P-$K not confirmed"; exit 2; }
 mkdir -p "$DST"
